@@ -110,10 +110,14 @@ func (w *world) do(kind string, f func()) {
 		}()
 		f()
 	}()
+	limit := 60 * time.Second
+	if w.hangs.Load() > 0 {
+		limit = 2 * time.Second // this program is already known to hang: do not pay a minute per remaining operation
+	}
 	select {
 	case <-done:
-	case <-time.After(60 * time.Second):
-		if w.hangs.Add(1) <= 3 {
+	case <-time.After(limit):
+		if w.hangs.Add(1) <= 3 && limit == 60*time.Second {
 			w.run.Violation(vk.Violation{Sub: "hang", Fields: map[string]any{"op": kind},
 				What:    fmt.Sprintf("operation %s did not return within 60 s (program %d)", kind, w.program),
 				Witness: map[string]any{"program": w.program, "seed": w.run.Seed(), "stacks": vk.DumpGoroutines("c16-hang-" + kind)}})
